@@ -13,7 +13,15 @@ def make_project(nfiles=1, nmod=1, nprog=1, nproc=1, ntype=1, nabs=0, nblock=0, 
             ext = f", extends(ty{t - 1})" if t > 1 else ""
             L += [f"type{ext} :: ty{t}", f"  !! doc of type ty{t}" + (f" see [[ty{t - 1}]]" if t > 1 and links and in_module else ""),
                   f"  integer :: comp{t}", f"  !! component {t}", "contains", f"  procedure :: bound{t}", f"  !! binding {t}", "  !!", f"  !! second paragraph of binding {t}",
-                  f"  generic :: gbound{t} => bound{t}", f"  !! generic binding {t}", "  !!", f"  !! second paragraph of generic binding {t}", f"end type ty{t}"]
+                  f"  generic :: gbound{t} => bound{t}", f"  !! generic binding {t}", "  !!", f"  !! second paragraph of generic binding {t}"]
+            if in_module:
+                # a finaliser that is private to the module (it has no page of its own unless private entities are displayed)
+                L += [f"  final :: fin{t}", f"  !! finaliser {t}"]
+            L += [f"end type ty{t}"]
+            if in_module:
+                L.append(f"private :: fin{t}")
+                C += [f"subroutine fin{t}(self)", f"  !! finaliser of ty{t}", "  !!", f"  !! second paragraph of finaliser {t}", f"  type(ty{t}), intent(inout) :: self",
+                      f"  !! the object of finaliser {t}", "  !!", f"  !! second paragraph about the object of finaliser {t}", f"end subroutine fin{t}"]
             if private_impls and in_module:
                 L.append(f"private :: bound{t}")
             C += [f"subroutine bound{t}(self)", f"  !! bound procedure {t}", "  !!", f"  !! second paragraph of bound procedure {t}", f"  class(ty{t}), intent(in) :: self", f"end subroutine bound{t}"]
